@@ -1,5 +1,5 @@
 (* C18 - Events: every subscriber sees every publication once, in order. *)
-From Ergo Require Import Common.Base Event.Model Event.Proofs.
+From Ergo Require Import Common.Base Event.Model Event.Proofs Event.Remote Event.RemoteProofs Event.RemoteRefine.
 
 (* Exactly once, in order (any number of actors, any programs, any schedule).
    For every actor i and receiver x: the items i has pushed into x's mailbox, followed by what its
@@ -95,3 +95,70 @@ Theorem C18_start_stop_order_refuted :
     quiescent c = true /\ rels (sh c) <> [] /\ inbox is_sys 0 (log (sh c)) = [IStart; IStart; IStop].
 Proof. exact start_stop_order_refuted. Qed.
 Print Assumptions C18_start_stop_order_refuted.
+
+(* ---- subscribers on ANOTHER node (two-node transition system of Event/Remote.v) -------------------- *)
+
+(* Quiescent histories (every call and everything it causes on the other node completes before the next
+   call): the two-node system IS the sequential model in which remote subscribers are ordinary consumers -
+   node A's state is the sequential state, B's relation table is the remote part of A's, and what B really
+   pushes to each of its actors is what the sequential model delivers to that actor.  Hence every clause
+   proved for sequential histories above (counter = subscriptions, start/stop, last-N, exactly once, one
+   exit / down) holds for subscribers on another node. *)
+Theorem C18_remote_quiescent_refines_sequential : forall bs h,
+  valid_hist bs h = true ->
+  let rs := q_hist bs h in
+  r_a rs = seq_hist h /\
+  r_net rs = [] /\ r_gone rs = [] /\ r_pend rs = [] /\
+  r_relB rs = filter (fun e => mem (fst e) bs) (q_subs (seq_hist h)) /\
+  (forall f x, mem x bs = true -> sinbox f x (r_outB rs) = sinbox f x (q_out (seq_hist h))).
+Proof. exact quiet_refines_sequential. Qed.
+Print Assumptions C18_remote_quiescent_refines_sequential.
+
+(* One frame per remote node and publication, whatever the number of consumers there (any state). *)
+Theorem C18_remote_one_frame_per_node : forall bs s i g tok seq,
+  mem i (q_dead s) = false -> q_reg s = Some g -> g_token g = tok ->
+  frames_of bs s (i, OPublish tok seq) = if has_remote bs (q_subs s) then [FEv i seq] else [].
+Proof. exact publish_one_frame. Qed.
+Print Assumptions C18_remote_one_frame_per_node.
+
+(* The receiving node pushes an event frame exactly once to every distinct live process holding a link or
+   a monitor in ITS target manager (any state, any schedule). *)
+Theorem C18_remote_fanout_once : forall rs p seq,
+  let l := nodup Nat.eq_dec (map fst (r_relB rs)) in
+  r_outB (handleB rs (FEv p seq)) = r_outB rs ++ map (fun x => (x, IEv p seq)) (filter (aliveB rs) l) /\
+  NoDup l /\ (forall x, In x l <-> exists k, In (x, k) (r_relB rs)) /\
+  r_relB (handleB rs (FEv p seq)) = r_relB rs.
+Proof. exact remote_fanout_once. Qed.
+Print Assumptions C18_remote_fanout_once.
+
+(* A terminate frame takes all relations of the receiving node at once: one exit per link subscriber, one
+   down per monitor subscriber. *)
+Theorem C18_remote_terminate_once : forall rs reason,
+  let ex := rels_of_kind (r_relB rs) KLink in
+  let dn := rels_of_kind (r_relB rs) KMon in
+  r_relB (handleB rs (FTerm reason)) = [] /\
+  r_outB (handleB rs (FTerm reason)) =
+    r_outB rs ++ map (fun x => (x, IExit reason)) (filter (aliveB rs) ex) ++ map (fun x => (x, IDown reason)) (filter (aliveB rs) dn).
+Proof. exact remote_terminate_once. Qed.
+Print Assumptions C18_remote_terminate_once.
+
+(* Without quiescence the completeness clauses do not hold for subscribers on another node (known findings
+   remote-subscribe-race, remote-unregister-overtakes; reproduced on two real nodes by the harness): *)
+Theorem C18_remote_subscribe_gap_refuted :
+  exists bs ls, let rs := rrun bs ls rst0 in
+    settled rs = true /\ has_rel (r_relB rs) 1 KLink = true /\
+    results_of 1 (q_res (r_a rs)) = [RList []] /\ ghost_ev rs 1 = [IEv 0 7] /\ ev_of rs 1 = [].
+Proof. exact remote_subscribe_gap_refuted. Qed.
+Print Assumptions C18_remote_subscribe_gap_refuted.
+
+Theorem C18_remote_subscribe_dup_refuted :
+  exists bs ls, let rs := rrun bs ls rst0 in
+    settled rs = true /\ results_of 1 (q_res (r_a rs)) = [RList [(0, 7)]] /\ ev_of rs 1 = [IEv 0 7] /\ ghost_ev rs 1 = [].
+Proof. exact remote_subscribe_dup_refuted. Qed.
+Print Assumptions C18_remote_subscribe_dup_refuted.
+
+Theorem C18_remote_unregister_overtakes_refuted :
+  exists bs ls, let rs := rrun bs ls rst0 in
+    settled rs = true /\ ghost_ev rs 1 = [IEv 0 7] /\ ev_of rs 1 = [] /\ sys_of rs 1 = [IDown 0].
+Proof. exact remote_unregister_overtakes_refuted. Qed.
+Print Assumptions C18_remote_unregister_overtakes_refuted.
